@@ -84,12 +84,34 @@ theorem nr_assembleLoop (pre test bodyPre : List Instr) (body : Code) (post : Li
   simp [nr, Instr.plainI]
 
 
+theorem all_indexVarRange (v : String) (a b : Rv) (w : Bool) (ha : RvOK a) (hb : RvOK b) :
+    (indexVarRange v a b w).all Instr.plainI = true := by
+  simp only [indexVarRange, List.all_append, nr_genRv ha, nr_genRv hb, Bool.true_and]
+  cases w <;> rfl
+
+theorem all_cycleVarRange (v : String) (start : Option Rv) (hs : WithOK (.cycle v start)) :
+    (cycleVarRange v start).all Instr.plainI = true := by
+  cases start with
+  | none => rfl
+  | some r =>
+    have hr : RvOK r := hs
+    simp only [cycleVarRange, List.all_append, nr_genRv hr, Bool.true_and]
+    rfl
+
 theorem nr_genLoop {hd : LoopHdr} (hh : LoopHdrOK hd) (body : Code) (hb : nr body = true) :
     nr (genLoop hd body) = true := by
   cases hd with
   | forever => exact nr_assembleLoop _ _ _ _ _ rfl rfl rfl hb rfl
   | while_ c => exact nr_assembleLoop _ _ _ _ _ rfl (nr_genRv hh _) rfl hb rfl
   | count n => exact nr_assembleLoop _ _ _ _ _ (nr_genRv hh _) rfl rfl hb rfl
+  | range v a b =>
+    exact nr_assembleLoop _ _ _ _ _ (all_indexVarRange v a b true hh.1 hh.2) rfl rfl hb rfl
+  | interp n v a b =>
+    refine nr_assembleLoop _ _ _ _ _ ?_ rfl rfl hb rfl
+    rw [List.all_append, nr_genRv hh.1, all_indexVarRange v a b false hh.2.1 hh.2.2]; rfl
+  | cycle n v start =>
+    refine nr_assembleLoop _ _ _ _ _ ?_ rfl rfl hb rfl
+    rw [List.all_append, nr_genRv hh.1, all_cycleVarRange v start hh.2]; rfl
   | _ => exact absurd hh (by simp [LoopHdrOK])
 
 theorem nr_genRv_simple {a : Rv} (ha : SimpleArg a) (d : Dst) : (genRv a (.to d)).all Instr.plainI = true := by
